@@ -155,14 +155,10 @@ func TestC06(t *testing.T) {
 	enum("enum-range", gen.RangeAlphabet(), focusLen+map[bool]int{false: 0, true: 1}[cfg.Thorough()])
 	enum("enum-unary", gen.UnaryAlphabet(), focusLen)
 	// a complete range takes seven tokens, more than the enumerations above reach in the
-	// quick tier: every five-token continuation of "a :" over the range alphabet
-	st.Stream("enum-range-frame", true, "a : followed by every token sequence of length 5 over the range alphabet x df in {none, dflt}")
-	frame := []gen.Tok{gen.Term(gen.Word("a")), gen.Sym(":")}
-	gen.EnumSeqs(gen.RangeAlphabet(), 5, cfg.Shard, cfg.NShards, func(seq []gen.Tok) {
-		if len(seq) < 5 {
-			return
-		}
-		cp := append(append([]gen.Tok(nil), frame...), seq...)
+	// quick tier
+	st.Stream("enum-range-frame", true, "token sequences around one range (gen.RangeFrames): a : + 5 tokens over the range alphabet; a : [ b TO + 1..4 tokens; a : [ + 1..3 tokens + TO c ]; x df in {none, dflt}")
+	gen.RangeFrames(cfg.Shard, cfg.NShards, func(seq []gen.Tok) {
+		cp := append([]gen.Tok(nil), seq...)
 		run("enum-range-frame", TokCase{Toks: cp})
 		run("enum-range-frame", TokCase{Toks: cp, DF: "dflt"})
 	})
